@@ -566,3 +566,90 @@ def _neutralise_even_root_of_even_power():
 NEUTRALISERS = {
     "even_root_of_even_power": _neutralise_even_root_of_even_power,
 }
+
+
+# ---- M-COV: line coverage of the library through sys.monitoring (LINE events, DISABLE after the first hit) -------------
+
+COV = {"lines": {}, "on": False, "root": None}
+
+
+def _install_cov():
+    import smoothmath
+    mon = getattr(sys, "monitoring", None)
+    if mon is None:
+        return
+    root = os.path.dirname(os.path.realpath(smoothmath.__file__))
+    COV["root"] = root
+    tool = mon.COVERAGE_ID
+    try:
+        mon.use_tool_id(tool, "smverif-cov")
+    except ValueError:
+        return
+    lines = COV["lines"]
+
+    def on_line(code, line):
+        fn = code.co_filename
+        if fn.startswith(root):
+            lines.setdefault(fn, set()).add(line)
+        return mon.DISABLE
+    mon.register_callback(tool, mon.events.LINE, on_line)
+    mon.set_events(tool, mon.events.LINE)
+    COV["on"] = True
+
+
+def executable_lines(path):
+    with open(path) as f:
+        src = f.read()
+    out = set()
+
+    def walk(co):
+        for _, _, ln in co.co_lines():
+            if ln is not None:
+                out.add(ln)
+        for c in co.co_consts:
+            if hasattr(c, "co_lines"):
+                walk(c)
+    walk(compile(src, path, "exec"))
+    # the module-level 'from __future__' / docstring lines are executed at import, before the monitor exists
+    return out
+
+
+def coverage_report():
+    if not COV["on"]:
+        return None
+    root = COV["root"]
+    rep = {}
+    for dirpath, _, files in os.walk(root):
+        for fn in files:
+            if not fn.endswith(".py"):
+                continue
+            path = os.path.join(dirpath, fn)
+            try:
+                ex = executable_lines(path)
+            except Exception:
+                continue
+            hit = COV["lines"].get(path, set())
+            body = set()
+            # lines inside function bodies only: module-level lines ran at import time, before monitoring started
+            with open(path) as f:
+                src = f.read()
+            top = compile(src, path, "exec")
+
+            def walk(co, inside):
+                if inside:
+                    for _, _, ln in co.co_lines():
+                        if ln is not None and ln != co.co_firstlineno:
+                            body.add(ln)
+                for c in co.co_consts:
+                    if hasattr(c, "co_lines"):
+                        walk(c, inside or c.co_name not in ("<module>",) and co.co_name != "<module>" or _is_function(c))
+            walk(top, False)
+            rel = os.path.relpath(path, root)
+            if body:
+                rep[rel] = {"executable": len(body), "executed": len(body & hit), "unreached": sorted(body - hit)[:40]}
+    return rep
+
+
+def _is_function(co):
+    # class bodies run at import; functions/lambdas/comprehensions run later
+    return bool(co.co_flags & 0x0002) or co.co_name in ("<lambda>", "<listcomp>", "<genexpr>", "<dictcomp>", "<setcomp>")
